@@ -335,6 +335,8 @@ def check_recursion(run, rule, reach, cg, mains):
         for c in ir.calls_in(f["body"]):
             if callee_name(c) in ("alloca", "__builtin_alloca"):
                 run.ob(rule, "%s:alloca" % fname(f), False, f, c.get("l", 0), "alloca on the read side")
+    if not any(o.rule == rule and ":vla(" in o.key for o in run.obs):
+        run.ob(rule, "vla:none", True, None, 0, "no variable-length array in the %d functions on the read side" % (len(reach) + len(mains)), nontrivial=False)
     run.floor(rule, 2, "recursion + VLA obligations")
 
 
